@@ -80,6 +80,7 @@ type Contract struct {
 	SplitReturns bool // check the postconditions once per path into a shared return block (no heap merge)
 	NoConvContents bool // string([]byte): model only the length (keeps a quantified fact out of functions that do not need it)
 	NoReads      []NoReads
+	OnlyWriter   []NoReads
 	StringsExact bool // model the contents of concatenated strings (quantified axioms)
 	Handler  bool // deferred recover handler: recover() yields an arbitrary value
 	RecoverBy string // callee key of the deferred recover handler: runtime panics after its Defer are converted to errors
@@ -528,6 +529,29 @@ func (sp *Specs) loadSpecFile(path, pkgPath string) error {
 				return fail(err)
 			}
 			cur.FieldsOf = append(cur.FieldsOf, c)
+		case "onlywriter":
+			// onlywriter[label;props] pkg.Type.Field ... : this function is the only one in the
+			// repository that stores to the field (initialisation of a freshly allocated object
+			// aside), and each of its stores to it carries an `at call store#k assert` hook
+			nr := NoReads{}
+			r := strings.TrimSpace(rest)
+			if m := reLabel.FindStringSubmatch(r); m != nil {
+				parts := strings.SplitN(m[1], ";", 2)
+				nr.Label = strings.TrimSpace(parts[0])
+				if len(parts) == 2 {
+					for _, pr := range strings.Split(parts[1], ",") {
+						if pr = strings.TrimSpace(pr); pr != "" {
+							nr.Props = append(nr.Props, pr)
+						}
+					}
+				}
+				r = r[len(m[0]):]
+			}
+			nr.Fields = strings.Fields(r)
+			if len(nr.Fields) == 0 {
+				return fail(fmt.Errorf("onlywriter: field names expected"))
+			}
+			cur.OnlyWriter = append(cur.OnlyWriter, nr)
 		case "noreads":
 			// noreads[label;props] pkg.Type.Field ... : neither the function nor any repo function it
 			// (transitively, statically) calls selects one of these fields
